@@ -453,3 +453,30 @@ def is_determined(net, tol=2e-3):
         return False
     s = np.linalg.svd(A / np.maximum(np.linalg.norm(A, axis=0), 1e-300), compute_uv=False)
     return bool(s[-1] > tol * s[0])
+
+
+def add_mixed_points(draw, net):
+    """3D networks only: append points that have only xy or only z (observed coordinates with their own
+    covariance), with identifiers sorting before and after the others.  Readers must keep the dimension per point."""
+    if net["dims"] != "3d":
+        return []
+    base = net["points"][0]
+    added = []
+    obs = []
+    for k in range(draw(st.integers(1, 3))):
+        kind = draw(st.sampled_from(["xy", "z"]))
+        first = draw(st.booleans())
+        pid = ("0M%d" if first else "zM%d") % k
+        p = {"id": pid, "E": base["E"] + 3.0 + 2.5 * k, "N": base["N"] - 4.0 - 1.5 * k, "H": base["H"] + 0.25 * k,
+             "xy": "adj" if kind == "xy" else None, "z": "adj" if kind == "z" else None,
+             "give_xy": kind == "xy", "give_z": kind == "z", "recipe": ["coords", None] if kind == "xy" else [None, "coords"]}
+        if first:
+            net["points"].insert(0, p)
+        else:
+            net["points"].append(p)
+        n = 2 if kind == "xy" else 1
+        obs.append({"id": pid, "dims": kind, "e": [draw(st.integers(-8, 8)) * 1.0 for _ in range(n)]})
+        added.append(pid)
+    dim = sum(len(o["e"]) for o in obs)
+    net["clusters"].append({"k": "coords", "obs": obs, "cov": {"band": 0, "C": (np.eye(dim) * 64.0).tolist()}})
+    return added
